@@ -50,5 +50,20 @@ bool Interp::exec_coll(Interp &I, const Stmt &s)
         });
         return true;
     }
+    if (s.op == "crecord")
+    {
+        PortVal v = I.get(a.at(0));
+        with_shape(v.shape, [&]<typename S>() { wire<stdlib::dense_record_impl>(w, Port<S>{w, v.ref}, Str{s.kws("key", "out")}); });
+        return true;
+    }
+    if (s.op == "creplay")
+    {
+        const std::string shape = s.kws("shape", "tsd");
+        with_shape(shape, [&]<typename S>() {
+            auto p = wire<stdlib::replay_impl, S>(w, Str{s.kws("key", "in")});
+            I.env[s.dst] = PortVal{p.erased(), PT::Other, shape};
+        });
+        return true;
+    }
     return false;
 }
